@@ -20,13 +20,13 @@ fn check_from_str_total<const N: usize>() {
 }
 
 #[kani::proof]
-#[kani::unwind(8)]
+#[kani::unwind(18)]
 fn u04_cursor_from_str_total_q() {
-    check_from_str_total::<3>();
+    check_from_str_total::<2>();
 }
 
 #[kani::proof]
-#[kani::unwind(8)]
+#[kani::unwind(18)]
 fn u04_cursor_from_str_total_t() {
     check_from_str_total::<4>();
 }
@@ -51,7 +51,7 @@ fn check_cursor_bytes_total<const N: usize>() {
 #[kani::proof]
 #[kani::unwind(18)]
 fn u04_cursor_bytes_total_q() {
-    check_cursor_bytes_total::<6>();
+    check_cursor_bytes_total::<5>();
 }
 
 #[kani::proof]
@@ -60,23 +60,3 @@ fn u04_cursor_bytes_total_t() {
     check_cursor_bytes_total::<12>();
 }
 
-#[kani::proof]
-#[kani::unwind(18)]
-fn u04_cursor_bytes_roundtrip_small() {
-    let ab: [u8; 2] = kani::any();
-    let ctr: u64 = kani::any();
-    kani::assume(ctr < 128);
-    let c = Cursor::Op(OpCursor {
-        ctr,
-        actor: ActorId::from(&ab[..]),
-        move_cursor: if kani::any() { MoveCursor::Before } else { MoveCursor::After },
-    });
-    let b = c.to_bytes();
-    let d = Cursor::try_from(b.as_slice());
-    assert!(d.is_ok());
-    assert!(d.unwrap() == c);
-    let s = Cursor::Start.to_bytes();
-    assert!(matches!(Cursor::try_from(s.as_slice()), Ok(Cursor::Start)));
-    let e = Cursor::End.to_bytes();
-    assert!(matches!(Cursor::try_from(e.as_slice()), Ok(Cursor::End)));
-}
